@@ -158,6 +158,22 @@ def msgs (ms : List M) (tail : Prog M R V E) : Prog M R V E :=
 /-- `return (yield m)` with the response converted by `f` -/
 def single (f : R → V) (m : M) : Prog M R V E := .yield m (fun r => .ret (f r))
 
+
+/-- what is left of the program after one more input -/
+def step : Prog M R V E → Inp R E → Prog M R V E
+  | .yield _ k, .send r => k r
+  | .yield _ _, .throw e => .raise e
+  | p, _ => p
+
+theorem after_cons (p : Prog M R V E) (i : Inp R E) (h : List (Inp R E)) :
+    p.after (i :: h) = (p.step i).after h := by
+  cases p <;> cases i <;> simp [after, step]
+
+theorem after_foldl (h : List (Inp R E)) : ∀ p : Prog M R V E, p.after h = (h.foldl step p).after [] := by
+  induction h with
+  | nil => intro p; rfl
+  | cons i h ih => intro p; rw [after_cons, ih]; rfl
+
 end Prog
 
 /-- relabel the messages a generator yields (used by the drivers to turn the payload numbers of
